@@ -150,26 +150,119 @@ func smProbeAfterPanic(r *hx.Run, mu *syncutils.StarvingMutex, misused string, w
 	}
 }
 
-// dagReg renders consumer counts and registry bits of the entities 0..7 (the driver's `compReg`).
+// dagReg renders consumer counts, registry bits and the lock state (writerActive readersActive, "-" without a mutex)
+// of the entities 0..7 (the driver's `compReg`).  Only used when no call is in flight.
 func dagReg(d *syncutils.DAGMutex[int]) string {
 	counts := *(**shrinkingmap.ShrinkingMap[int, int])(fieldPtr(d, "consumerCounter"))
 	mutexes := *(**shrinkingmap.ShrinkingMap[int, *syncutils.StarvingMutex])(fieldPtr(d, "mutexes"))
 	cs := make([]string, 8)
 	present := make([]byte, 8)
+	locks := make([]string, 8)
 	for x := 0; x < 8; x++ {
 		c, _ := counts.Get(x)
 		cs[x] = fmt.Sprint(c)
 		present[x] = b01(mutexes.Has(x))
+		locks[x] = "-"
+		if mu, ok := mutexes.Get(x); ok {
+			wa, ra, _ := smFields(mu)
+			locks[x] = fmt.Sprintf("%d/%d", wa, ra)
+		}
 	}
 
-	return strings.Join(cs, ",") + ":" + string(present)
+	return strings.Join(cs, ",") + ":" + string(present) + ":" + strings.Join(locks, ",")
+}
+
+// dagBook is the plain holder bookkeeping of the sequential DAGMutex runs (independent of Lean): who holds what, how
+// often an entity is registered, and which entities are frozen (a StarvingMutex method panicked inside its critical
+// section: its internal mutex stays locked and every later call on that entity blocks).
+type dagBook struct {
+	w      map[int]bool
+	rd     map[int]int
+	reg    map[int]int
+	frozen map[int]bool
+}
+
+// expect: what the call must do given the bookkeeping — "ok", "block", "panic:lookup" (not registered often enough:
+// nothing may change) or "panic:wrong-mode" (the entity's mutex is not held in that mode: the registry may not change,
+// the read locks of the ids before the offending one are released) — and the bookkeeping after the call.
+func (b *dagBook) expect(op string, xs []int) string {
+	switch op {
+	case "lock":
+		x := xs[0]
+		b.reg[x]++
+		if b.frozen[x] || b.w[x] || b.rd[x] > 0 {
+			return "block"
+		}
+		b.w[x] = true
+	case "rlock":
+		for _, x := range xs {
+			b.reg[x]++
+		}
+		for _, x := range xs {
+			if b.frozen[x] || b.w[x] {
+				return "block"
+			}
+			b.rd[x]++
+		}
+	case "unlock":
+		x := xs[0]
+		if b.reg[x] == 0 {
+			return "panic:lookup"
+		}
+		if b.frozen[x] {
+			return "block"
+		}
+		if !b.w[x] || b.rd[x] > 0 {
+			b.frozen[x] = true
+
+			return "panic:wrong-mode"
+		}
+		b.w[x] = false
+		b.reg[x]--
+	case "runlock":
+		needed := map[int]int{}
+		for _, x := range xs {
+			needed[x]++
+			if needed[x] > b.reg[x] {
+				return "panic:lookup"
+			}
+		}
+		for _, x := range xs {
+			if b.frozen[x] {
+				return "block"
+			}
+			if b.rd[x] == 0 || b.w[x] {
+				b.frozen[x] = true
+
+				return "panic:wrong-mode"
+			}
+			b.rd[x]--
+		}
+		for _, x := range xs {
+			b.reg[x]--
+		}
+	}
+
+	return "ok"
+}
+
+// lockState renders the bookkeeping as dagReg renders the lock state of the real mutexes.
+func (b *dagBook) lockState() string {
+	locks := make([]string, 8)
+	for x := 0; x < 8; x++ {
+		locks[x] = "-"
+		if b.reg[x] > 0 {
+			locks[x] = fmt.Sprintf("%c/%d", b01(b.w[x]), b.rd[x])
+		}
+	}
+
+	return strings.Join(locks, ",")
 }
 
 // execSeqDag: cont = go on after a recovered misuse panic when the registry mutex is free again (composed model).
 func execSeqDag(r *hx.Run, ops []string, cont bool) string {
 	d := syncutils.NewDAGMutex[int]()
-	w := map[int]bool{}
-	rd := map[int]int{}
+	b := &dagBook{w: map[int]bool{}, rd: map[int]int{}, reg: map[int]int{}, frozen: map[int]bool{}}
 	var ans []string
 	misused := "" // the call whose panic was recovered ...
 	trigger := "" // ... and where it struck
@@ -180,41 +273,32 @@ func execSeqDag(r *hx.Run, ops []string, cont bool) string {
 		}
 		op, xs := f[0], parseEnts(f[1])
 		var call func()
-		expectPanic := false
-		expectBlock := false
-		state := ""
 		switch op {
 		case "lock":
-			expectBlock = w[xs[0]] || rd[xs[0]] > 0
 			call = func() { d.Lock(xs[0]) }
 		case "rlock":
-			for _, x := range xs {
-				if w[x] {
-					expectBlock = true
-				}
-			}
 			call = func() { d.RLock(xs...) }
 		case "unlock":
-			expectPanic = !w[xs[0]]
-			state = fmt.Sprintf("writer=%v readers=%d", w[xs[0]], rd[xs[0]])
 			call = func() { d.Unlock(xs[0]) }
 		case "runlock":
-			left := map[int]int{}
-			for _, x := range xs {
-				if _, ok := left[x]; !ok {
-					left[x] = rd[x]
-				}
-				if left[x] == 0 {
-					expectPanic = true
-					state = fmt.Sprintf("writer=%v readers=%d", w[x], rd[x])
-				}
-				left[x]--
-			}
 			call = func() { d.RUnlock(xs...) }
 		default:
 			return "bad-op"
 		}
-		if expectBlock {
+		state := ""
+		if op == "unlock" || op == "runlock" {
+			state = fmt.Sprintf("writer=%v readers=%d", b.w[xs[0]], b.rd[xs[0]])
+			for _, x := range xs {
+				if b.rd[x] == 0 || b.w[x] {
+					state = fmt.Sprintf("writer=%v readers=%d", b.w[x], b.rd[x])
+
+					break
+				}
+			}
+		}
+		want := b.expect(op, xs)
+		expectPanic := strings.HasPrefix(want, "panic")
+		if want == "block" {
 			if misused == "" {
 				return strings.Join(append(ans, "block"), " ")
 			}
@@ -224,20 +308,15 @@ func execSeqDag(r *hx.Run, ops []string, cont bool) string {
 				return strings.Join(append(ans, "block"), " ")
 			}
 			if p != "" {
+				r.Fail("unexpected-panic", fmt.Sprintf("after the recovered panic of DAGMutex.%s: %s(%s) panicked (%s) although it has to block; sequence %v", misused, op, f[1], p, ops),
+					sig("api", "DAGMutex."+op, "oracle", "panic-instead-of-block-after-misuse-panic", "misuse", "DAGMutex."+misused, "trigger", trigger))
+
 				return strings.Join(append(ans, "panic"), " ")
 			}
-			r.Fail("exclusion", fmt.Sprintf("after the recovered panic of DAGMutex.%s: %s(%s) was granted although the entity is still held (the failed call released nothing); sequence %v", misused, op, f[1], ops),
+			r.Fail("exclusion", fmt.Sprintf("after the recovered panic of DAGMutex.%s: %s(%s) returned although the entity is still held or its mutex is frozen (the failed call released nothing); sequence %v", misused, op, f[1], ops),
 				sig("api", "DAGMutex."+misused, "oracle", "granted-after-misuse-panic", "trigger", trigger))
-			ans = append(ans, "ok")
-			if op == "lock" {
-				w[xs[0]] = true
-			} else {
-				for _, x := range xs {
-					rd[x]++
-				}
-			}
 
-			continue
+			return strings.Join(append(ans, "ok"), " ")
 		}
 		reg0 := dagReg(d)
 		p := hx.Safely(call)
@@ -258,6 +337,10 @@ func execSeqDag(r *hx.Run, ops []string, cont bool) string {
 			if !d.Mutex.TryLock() {
 				ans = append(ans, "frozen")
 				r.Count("seq-dag-after-panic:frozen")
+				if expectPanic {
+					r.Fail("panic-corrupts-state", fmt.Sprintf("DAGMutex.%s(%s) panicked (%s) and left the registry mutex locked; sequence %v", op, f[1], p, ops),
+						sig("api", "DAGMutex."+op, "oracle", "panic-corrupts-state", "trigger", "registry-mutex-left-locked"))
+				}
 
 				break
 			}
@@ -265,15 +348,27 @@ func execSeqDag(r *hx.Run, ops []string, cont bool) string {
 			reg1 := dagReg(d)
 			ans = append(ans, "live:"+reg1)
 			r.Count("seq-dag-after-panic:live")
-			// where the panic struck: in unregisterMutexes at an id that is not registered (the ids before it are
-			// already unregistered), or inside the StarvingMutex method (wrong mode) after the unregistration
-			where := "unregistered-then-wrong-mode"
+			// where the panic struck: in the lookup (an id that is not registered often enough), or inside the
+			// StarvingMutex method (wrong mode)
+			where := "wrong-mode"
 			if strings.Contains(p, "too often") {
-				where = "earlier-ids-unregistered"
+				where = "lookup"
 			}
-			if reg1 != reg0 && expectPanic {
-				r.Fail("panic-corrupts-state", fmt.Sprintf("DAGMutex.%s(%s) panicked (%s) but changed the registry (consumer counts:entities with a mutex) from %s to %s; sequence %v",
+			r.Count("seq-dag-panic-where:" + where)
+			cut := func(s string) string { return s[:strings.LastIndex(s, ":")] } // counts:bits without the lock state
+			if expectPanic && cut(reg1) != cut(reg0) {
+				r.Fail("panic-corrupts-state", fmt.Sprintf("DAGMutex.%s(%s) panicked (%s) but changed the registry (consumer counts:entities with a mutex:lock state) from %s to %s; sequence %v",
 					op, f[1], p, reg0, reg1, ops), sig("api", "DAGMutex."+op, "oracle", "panic-corrupts-state", "trigger", where))
+			}
+			if expectPanic && want != "panic:"+where {
+				r.Fail("panic-corrupts-state", fmt.Sprintf("DAGMutex.%s(%s) panicked in the wrong place (%s: %s; the holder bookkeeping says %s); sequence %v",
+					op, f[1], where, p, want, ops), sig("api", "DAGMutex."+op, "oracle", "panic-in-wrong-place", "trigger", where))
+			}
+			// every entity's lock state is what the bookkeeping says: untouched by a failed lookup; after a wrong-mode panic
+			// at the k-th id the k-1 read locks before it are released and nothing else
+			if ls := reg1[strings.LastIndex(reg1, ":")+1:]; expectPanic && want == "panic:"+where && ls != b.lockState() {
+				r.Fail("panic-corrupts-state", fmt.Sprintf("DAGMutex.%s(%s) panicked (%s) and left the lock states (writer/readers per entity) %s, the holders account for %s; sequence %v",
+					op, f[1], p, ls, b.lockState(), ops), sig("api", "DAGMutex."+op, "oracle", "panic-corrupts-state", "trigger", where+"-lock-state"))
 			}
 			if misused == "" {
 				misused, trigger = op, where
@@ -285,22 +380,6 @@ func execSeqDag(r *hx.Run, ops []string, cont bool) string {
 		if expectPanic {
 			r.Fail("missing-panic", fmt.Sprintf("DAGMutex.%s(%s) did not panic although the entity is not held in that mode (%s); sequence %v", op, f[1], state, ops),
 				sig("api", "DAGMutex."+op, "oracle", "missing-panic", "state", state))
-		}
-		switch op {
-		case "lock":
-			w[xs[0]] = true
-		case "rlock":
-			for _, x := range xs {
-				rd[x]++
-			}
-		case "unlock":
-			w[xs[0]] = false
-		case "runlock":
-			for _, x := range xs {
-				if rd[x] > 0 {
-					rd[x]--
-				}
-			}
 		}
 	}
 
